@@ -50,10 +50,19 @@ namespace nmtools::index
                 if constexpr (meta::is_resizable_v<result_t>) {
                     res.resize(n);
                 }
-                using ai_t  = meta::get_element_or_common_type_t<axis_t>;
+                // a clipped integer is as signed as the integer it wraps (meta::is_unsigned_v is true for every class type)
+                using ae_t  = meta::get_element_or_common_type_t<axis_t>;
+                constexpr auto ai_vtype = [](){
+                    if constexpr (meta::is_clipped_integer_v<ae_t>) {
+                        return meta::as_value_v<typename ae_t::value_type>;
+                    } else {
+                        return meta::as_value_v<ae_t>;
+                    }
+                }();
+                using ai_t  = meta::type_t<decltype(ai_vtype)>;
                 using idx_t = meta::promote_index_t<ndim_t,ai_t>;
                 auto normalize_axis_impl = [&](auto i){
-                    auto ai = at(axis,i);
+                    auto ai = static_cast<ai_t>(at(axis,i));
                     if constexpr (meta::is_unsigned_v<ai_t>) {
                         if ((idx_t)ai < (idx_t)ndim) {
                             at(res,i) = (idx_t)ai;
